@@ -11,7 +11,10 @@ CFG = {
              "values are equal, as glyph names and component bases within one layer and split across layers; every 6th tree has 5-8 layers of very different "
              "sizes with the default layer not first in layercontents.plist; half of the trees get a history of 1-30 public-API operations between load and save "
              "(insert_glyph, remove_glyph, rename_glyph, entry().or_insert, on existing / early-sorting / previously used names) applied by both builds, the dump "
-             "after the history is compared as well) loaded, dumped and saved by the sequential build of the harness and by the rayon build "
+             "after the history is compared as well; four trees with 33/41/49/70 layers (more than the 32-element small-sort threshold of std) and the default layer "
+             "last / middle / second; four UFO 2 trees with unprefixed kerning groups named like glyphs of ANOTHER font, like dangling component bases and like "
+             "own glyphs, groups and kerning after upconversion are part of the dump; every 4th tree and the UFO 2 trees are loaded after another font "
+             "in the SAME process, before every repetition, in both builds) loaded, dumped and saved by the sequential build of the harness and by the rayon build "
              "(second cargo configuration of the same harness, norad/rayon) with RAYON_NUM_THREADS in {1,2,4,16}, each 20x (quick) / 500x (thorough): "
              "every dump (all layer names, glyph names, component bases, body check), saved-file listing and saved-tree hash must equal the sequential one; "
              "the sequential dump and listing are compared with the compiled model, and the executable parallel model is replayed on the same files under "
@@ -30,6 +33,8 @@ CFG = {
         "the driver additionally checks the dump order against the sorted contents keys)",
         "glif parsing other than the order of interning requests (key, name attribute, component bases) is outside this model (C02/C12); "
         "the harness checks the rest of every loaded glyph against the seed it was generated from",
+        "kerning upconversion itself is C15; here groups and kerning are compared between the two builds only (par = seq oracle), not with a model",
+        "process-wide state is probed by loading ONE other font before every load and by repeating loads 20x/500x in one process; longer histories of different fonts are not generated",
         "a name table that compares hashes instead of names is exercised for ONE hash function only (DefaultHasher::new(), the colliding pair in the name pool)",
         "file names chosen by insert_glyph during a history are not predicted by this model (C07); the driver only demands one file per contents entry holding the right glyph; "
         "the par = seq oracle compares listings and tree hashes exactly",
